@@ -73,7 +73,7 @@ def enumerate_sites(prog, fns=None):
                 s.self_ty = None
             elif t["k"] == "call":
                 fr = callee_fn(t)
-                if fr is None:
+                if not fr:
                     continue
                 d = fr["def"]
                 for rx, kind in PANICKING:
